@@ -1,9 +1,12 @@
 import PyaModel.Spec.CacheSpec
 /-! Line protocol driver for C10. Fields are TAB separated; lists are comma separated.
 
-in : join    <kind> <order> <elems> <extra>     kind ∈ kwargs keys pstr kinds
-     pff     <other> <order> <elems> <name=ok|missing|conflict,…>
-     ornarrow <a<b,…> <vals: any|id,…> <order ids> <elems ids>
+in : kwargs  <keywords in call order> <consumed>
+     keys    <template keys in order> <seen keys> <0|1 non-literal keys present>
+     pstr    <base> <members in any order>
+     pff     <other> <members in any order> <name=ok|missing|conflict,…>
+     kinds   <order> <elems>
+     ornarrow <a<b,…> <vals: any|id,…> <tests in operand order>
      try     <pre ids> <order ids> <elems ids>
      orbound <order: ids joined by '.' ,…> <elems>
      defnodes <order: member ids of each node joined by '.' ,…> <elems>
@@ -85,14 +88,16 @@ def parseQuery (s : String) : Option Query :=
 def orNone (o : Option String) : String := o.getD "-"
 
 /-- `variant` = which cache-key repairs the implementation under check has (mode, generic
-arguments, no caching under assumptions), as three 0/1 characters; `000` = the pinned code. -/
+arguments, no caching under assumptions), as three 0/1 characters; `110` = the code in /repo (model
+`check`, classes printed); any other variant runs `check2` and every dependence is outside the
+classes (`D=-`). -/
 def histLine (reqs tobjs ranks fuel hist query variant : String) : String :=
   match parseWorld reqs tobjs, parseRanks ranks, fuel.toNat?, (csv hist).mapM parseQuery, parseQuery query with
   | some W, some rk, some fuel, some h, some q =>
     let rkf := rankOf rk
     let gfp := (gfpCompat W q.ex).contains (q.p, q.a, q.v)
-    let common := s!"gfp={b01 gfp} sem={b01 (sem W q.ex fuel q.p q.a q.v)} modeMix={b01 (D10_modeMix h q)} selfArgs={b01 (D10_selfArgs W h q)} cyclic={b01 (D10_cyclic W rkf)}"
-    if variant == "000" then
+    let common := s!"gfp={b01 gfp} sem={b01 (sem W q.ex fuel q.p q.a q.v)} cyclic={b01 (D10_cyclic W rkf)}"
+    if variant == "110" then
       let ans := answers W fuel {} (h ++ [q])
       let fresh := answerFresh W fuel q
       let freshAll := (h ++ [q]).map fun q' => answerFresh W fuel q'
@@ -112,33 +117,23 @@ def histLine (reqs tobjs ranks fuel hist query variant : String) : String :=
 
 def handle (line : String) : String :=
   match line.splitOn "\t" with
-  | ["join", kind, order, elems, extra] =>
-    let o := csv order
-    let e := csv elems
-    let out := match kind with
-      | "kwargs" => some (orNone (siteExtraKwargs o))
-      | "keys" => some (orNone (siteKeysLeft o (extra == "1")))
-      | "pstr" => some (siteProtocolStr extra true o)
-      | "kinds" => some (siteDisallowedKinds o)
-      | _ => none
-    match out with
-    | some out => s!"perm={b01 (isPermOf o e)} D={if D10_twoOrMore e then "twoOrMore" else "-"} out={out}"
-    | none => "bad-op"
-  | ["pff", other, order, elems, outcomes] =>
+  | ["kwargs", keywords, consumed] => s!"out={orNone (siteExtraKwargs (csv keywords) (csv consumed))}"
+  | ["keys", template, seen, nonlit] => s!"out={orNone (siteKeysLeft (csv template) (csv seen) (nonlit == "1"))}"
+  | ["pstr", base, members] => s!"out={siteProtocolStr base true (csv members)}"
+  | ["kinds", order, elems] =>
+    s!"perm={b01 (isPermOf (csv order) (csv elems))} D={if D10_twoOrMore (csv elems) then "twoOrMore" else "-"} out={siteDisallowedKinds (csv order)}"
+  | ["pff", other, members, outcomes] =>
     match (csv outcomes).mapM parseOutcome with
     | some tbl =>
       let outcome : String → MemberOutcome := fun m => (tbl.lookup m).getD .ok
-      let o := csv order
-      let e := csv elems
-      s!"perm={b01 (isPermOf o e)} D={if D10_twoFailing outcome e then "twoFailing" else "-"} out={orNone (siteProtocolFirstFail other outcome o)}"
+      s!"out={orNone (siteProtocolFirstFail other outcome (csv members))}"
     | none => "bad-op"
-  | ["ornarrow", subs, vals, order, elems] =>
-    match (csv subs).mapM (parsePair "<"), (csv vals).mapM parseMember, nats order, nats elems with
-    | some st, some vs, some o, some e =>
+  | ["ornarrow", subs, vals, tests] =>
+    match (csv subs).mapM (parsePair "<"), (csv vals).mapM parseMember, nats tests with
+    | some st, some vs, some ts =>
       let sub : Nat → Nat → Bool := fun a b => a == b || st.contains (a, b)
-      let out := siteOrNarrow sub vs o
-      s!"perm={b01 (isPermOf o e)} D={if D10_twoConstraints e then "twoConstraints" else "-"} out={",".intercalate (out.map showMember)}"
-    | _, _, _, _ => "bad-op"
+      s!"out={",".intercalate ((siteOrNarrow sub vs ts).map showMember)}"
+    | _, _, _ => "bad-op"
   | ["try", pre, order, elems] =>
     match nats pre, nats order, nats elems with
     | some p, some o, some e =>
@@ -181,7 +176,7 @@ def handle (line : String) : String :=
         (r.2.1, acc.2 ++ [tag])) (ini.map fun k => (k, k + 1000), [])
       s!"size={tbl.length} trace={",".intercalate outs}"
     | _, _, _, _ => "bad-op"
-  | ["hist", reqs, tobjs, ranks, fuel, hist, query] => histLine reqs tobjs ranks fuel hist query "000"
+  | ["hist", reqs, tobjs, ranks, fuel, hist, query] => histLine reqs tobjs ranks fuel hist query "110"
   | ["hist", reqs, tobjs, ranks, fuel, hist, query, variant] => histLine reqs tobjs ranks fuel hist query variant
   | ["cls", hint, a, b] => s!"D={orderClass hint a b}"
   | _ => "bad-op"
